@@ -89,13 +89,19 @@ func TestVerifC13(t *testing.T) {
 		for len(values) < nv {
 			ntok := []int{1, 2, 3, 5, 8, 20, 60}[rr.intn(7)]
 			v := vgenValue(rr, ntok, kind)
-			switch rr.intn(6) { // values as users register them: stray white space at the ends
+			switch rr.intn(10) { // values as users register them: stray white space at the ends
 			case 0:
 				v = v + " "
 			case 1:
 				v = v + "\n"
 			case 2:
 				v = "  " + v
+			case 3: // white space outside ASCII, which FlattenWhitespace leaves alone and the tokenizer splits on
+				v = v + "\u00a0"
+			case 4:
+				v = "\u2028" + v
+			case 5:
+				v = v + "\u0085"
 			}
 			ok := strings.TrimSpace(v) != ""
 			for _, w := range values { // none occurs inside another, as registered and after normalisation
